@@ -4,6 +4,7 @@ import (
 	"fmt"
 	"os"
 	"path/filepath"
+	"regexp"
 	"strconv"
 	"strings"
 	"time"
@@ -113,7 +114,7 @@ func smallCorpus() []string {
 			}
 		}
 	}
-	out = append(out, "10_000", "1_0_0", "12f", "1.5", "1._5", "1__2", "0x10", "\"\\x41\"", "\"\\u00e4\"", "\"\\U0001F600\"", "\"\\101\"", "'\\n'", "\"abc", "/* x", "/* x */ y", "// c\nx", "a|b", "a||b", "a&b", "a&&b", "a^b", "x~>y", "a\tb")
+	out = append(out, "10_000", "1_0_0", "12f", "1.5", "1._5", "1__2", "0x10", "\"\\x41\"", "\"\\u00e4\"", "\"\\U0001F600\"", "\"\\101\"", "'\\n'", "\"abc", "/* x", "/* x */ y", "/***/x", "/** d **/ x", "/* a **/ b", "/**/x", "1_", "1_000_", "2.5__", ">>=", ">>==", "<<=", "**=", "\"\\U0001F600\"", "'\\U00010000'", "\"\\x4", "\"ab\\u12", "// c\nx", "a|b", "a||b", "a&b", "a&&b", "a^b", "x~>y", "a\tb")
 	return out
 }
 
@@ -201,6 +202,98 @@ func racMatches(o *Obligation, line string) bool {
 	return false
 }
 
+// scalarInputs reads the model values of the unit's inputs when all of them
+// are scalars (integers, booleans); it returns Go argument expressions.
+func scalarArgs(o *Obligation) ([]string, bool) {
+	x := o.ex
+	fi := x.top
+	if fi == nil || fi.Decl == nil {
+		return nil, false
+	}
+	i := strings.Index(o.Model, "inputs-begin")
+	j := strings.Index(o.Model, "inputs-end")
+	vals := map[string]string{}
+	if i >= 0 && j > i {
+		for _, m := range pairRe.FindAllStringSubmatch(o.Model[i:j], -1) {
+			vals[m[1]] = strings.TrimSpace(m[2])
+		}
+	}
+	var args []string
+	for _, in := range x.inputs {
+		if in.Term.Sort != SInt && in.Term.Sort != SBool {
+			return nil, false
+		}
+		if strings.ContainsAny(in.Type, "*[") || strings.HasPrefix(in.Type, "map") || strings.HasPrefix(in.Type, "func") || strings.HasPrefix(in.Type, "chan") {
+			return nil, false
+		}
+		v, ok := vals[in.Name]
+		if !ok {
+			// unconstrained input: any value will do
+			if in.Term.Sort == SBool {
+				v = "false"
+			} else {
+				v = "0"
+			}
+		}
+		v = strings.ReplaceAll(strings.ReplaceAll(strings.ReplaceAll(v, "(- ", "-"), ")", ""), " ", "")
+		t := in.Type
+		if k := strings.LastIndex(t, "."); k >= 0 && strings.Contains(t, "/") {
+			t = t[strings.LastIndex(t, "/")+1:]
+		}
+		if in.Term.Sort == SBool {
+			args = append(args, v)
+		} else {
+			args = append(args, fmt.Sprintf("%s(%s)", t, v))
+		}
+	}
+	return args, true
+}
+
+var pairRe = regexp.MustCompile(`\((in\.[\w.!]+)\s+(\(- \d+\)|-?\d+|true|false)\)`)
+
+// unitReplaySource builds an in-package test that calls the unit with the
+// model's argument values.
+func unitReplaySource(p *Prog, o *Obligation, n int) (unitTest, bool) {
+	args, ok := scalarArgs(o)
+	if !ok {
+		return unitTest{}, false
+	}
+	fi := o.ex.top
+	pkgDir, _ := filepath.Rel(p.Root, filepath.Dir(p.Fset.Position(fi.Decl.Pos()).Filename))
+	pkgName := fi.Pkg.Types.Name()
+	// types of the own package must not be qualified
+	for i := range args {
+		args[i] = strings.ReplaceAll(args[i], pkgName+".", "")
+	}
+	call := ""
+	sig := fi.sig()
+	if sig.Recv() != nil {
+		call = fmt.Sprintf("(%s).%s(%s)", args[0], fi.Decl.Name.Name, strings.Join(args[1:], ", "))
+	} else {
+		call = fmt.Sprintf("%s(%s)", fi.Decl.Name.Name, strings.Join(args, ", "))
+	}
+	src := fmt.Sprintf(`package %s
+
+import (
+	"fmt"
+	"os"
+	"testing"
+)
+
+func TestHvcUnit%d(t *testing.T) {
+	fmt.Fprintf(os.Stderr, "RAC-UNIT %d\n")
+	defer func() {
+		if r := recover(); r != nil {
+			fmt.Fprintf(os.Stderr, "RAC-PANIC %s stage=unit msg=%%q\n", fmt.Sprint(r))
+		}
+		fmt.Fprintf(os.Stderr, "RAC-UNIT-END %d\n")
+	}()
+	%s
+}
+`, pkgName, n, n, o.Func, n, call)
+	return unitTest{pkgDir: pkgDir, source: src}, true
+}
+
 // replayAll tries to confirm the failed obligations on the real code.
 func replayAll(p *Prog, failed []*Obligation) map[*Obligation]*ReplayResult {
 	res := map[*Obligation]*ReplayResult{}
@@ -232,7 +325,17 @@ func replayAll(p *Prog, failed []*Obligation) map[*Obligation]*ReplayResult {
 		corpus = append(corpus, t)
 		origin = append(origin, "repository example program")
 	}
-	run, err := runRAC(p.Root, corpus, stages, 240*time.Second)
+	var units []unitTest
+	unitOf := map[*Obligation]int{}
+	unitCall := map[*Obligation]string{}
+	for _, o := range failed {
+		if u, ok := unitReplaySource(p, o, len(units)); ok {
+			unitOf[o] = len(units)
+			unitCall[o] = u.source
+			units = append(units, u)
+		}
+	}
+	run, err := runRACWithUnits(p.Root, corpus, stages, 240*time.Second, units)
 	if err != nil {
 		for _, o := range failed {
 			res[o] = &ReplayResult{Note: "replay harness failed: " + err.Error()}
@@ -247,6 +350,22 @@ func replayAll(p *Prog, failed []*Obligation) map[*Obligation]*ReplayResult {
 				if racMatches(o, ln) {
 					if best < 0 || len(corpus[idx]) < len(corpus[best]) {
 						best = idx
+					}
+				}
+			}
+		}
+		if n, ok := unitOf[o]; ok && best < 0 {
+			// lines between RAC-UNIT n and RAC-UNIT-END n
+			out := run.UnitOutput
+			a := strings.Index(out, fmt.Sprintf("RAC-UNIT %d\n", n))
+			b := strings.Index(out, fmt.Sprintf("RAC-UNIT-END %d\n", n))
+			if a >= 0 && b > a {
+				for _, ln := range strings.Split(out[a:b], "\n") {
+					if racMatches(o, ln) {
+						r.Confirmed = true
+						r.Note = "confirmed on the real code (runtime-checked build): the function called with the argument values of the solver's model"
+						r.Input = unitCall[o]
+						r.Output = ln
 					}
 				}
 			}
